@@ -9,7 +9,7 @@ import (
 	"worldcoin/gnark-mbu/prover"
 )
 
-var verifH proveHandler
+var verifH http.Handler
 
 func VerifHarness_C13_Setup() {
 	mode := InsertionMode
@@ -19,7 +19,7 @@ func VerifHarness_C13_Setup() {
 	ps := &prover.ProvingSystem{TreeDepth: verifNondetU32("depth"), BatchSize: verifNondetU32("batch"),
 		ProvingKey: verifStubPK("sys"), VerifyingKey: verifStubVK("sys"), ConstraintSystem: verifStubCS("sys")}
 	verifAssume(ps.TreeDepth <= 1 && ps.BatchSize <= 1)
-	verifH = proveHandler{provingSystem: ps, mode: mode}
+	verifH = verifDeploy(ps, mode)
 }
 
 func VerifHarness_C13_Invoke() {
